@@ -104,3 +104,45 @@ def roundtrip_check(prop):
 
 assume_doc("RTRIP", "BOUNDED, not proved: 24 events (15 contents, 9 tag lists incl. integers) x 7 subscription ids; SQL backend over sqlite; validators "
            "switched off; the LMDB record codec is not exercised (msgpack is not installed; the stand-in is not the real codec)")
+
+
+def gc_check(prop):
+    """extra check for C17: one real GC pass over a store of 5 kind classes x 7 expiration values, both backends"""
+
+    def check(tier, seed):
+        from .index import KNOWN_FINDINGS
+        t0 = time.time()
+        outdir = os.path.join(os.environ.get("PYVC_OUT_DIR", ROOT), "replays")
+        os.makedirs(outdir, exist_ok=True)
+        res = {"name": "garbage-collection-pass", "kind": "bounded stand-in (real add_event + real collector, sqlite / in-memory lmdb stand-in)",
+               "status": "ok", "evaluations": 0, "distinct": 0, "known_lines": [], "exhaustive": True, "samples": [],
+               "rule": "one case per (kind class, expiration text) pair: kinds regular / 5 / replaceable / parameterised replaceable / ephemeral x "
+                       "expiration none / past / future / 10-digit past / '999' / '10000000000' / '0x'; all distinct"}
+        open_ids = {"sql": "C17-sql-expiration-string-compare", "kv": "C17-kv-expiration-string-compare"}
+        listed = {f["id"]: f for f in KNOWN_FINDINGS if f["property"] == prop and f.get("status", "open") == "open"}
+        for be in ("sql", "kv"):
+            out = os.path.join(outdir, "%s_gc_%s.json" % (prop, be))
+            env = dict(os.environ)
+            env["PYTHONPATH"] = ROOT
+            p = subprocess.run([sys.executable, os.path.join(ROOT, "bounded", "gc_enum.py"), "--backend", be, "--json", out], capture_output=True, text=True, env=env, timeout=600)
+            if p.returncode != 0 or not os.path.exists(out):
+                raise RuntimeError("gc_enum %s failed: %s" % (be, (p.stdout + p.stderr)[-1500:]))
+            r = json.load(open(out))
+            res["evaluations"] += r["cases"]
+            res["distinct"] += r["cases"]
+            res["samples"] += [dict(x, backend=be) for x in r["samples"][:2]]
+            for c in r["failure_classes"]:
+                f = listed.get(open_ids[be]) if c["class"] else None
+                if f is not None:
+                    continue      # the text-comparison corner cases: reported by the finding's own witness line
+                res["status"] = "violation"
+                res.setdefault("failures", []).append({"kind": c["kind"], "count": c["count"], "example": dict(c["example"], backend=be)})
+        res["seconds"] = round(time.time() - t0, 1)
+        return res
+
+    check.__name__ = "gc_%s" % prop
+    return check
+
+
+assume_doc("GCENUM", "BOUNDED, not proved: 35 events (5 kind classes x 7 expiration texts) per backend, one collector pass, clock = the machine's clock; "
+           "the LMDB side runs on the in-memory stand-in")
